@@ -100,6 +100,8 @@ class OriginDomain(Domain):
     def call_ext(self, dotted, args, kwargs, node):
         last = dotted.rsplit('.', 1)[-1]
         a0 = args[0] if args else None
+        if dotted == 'builtins.callable' and isinstance(a0, (Og, Real)):
+            return Const(False)
         if last in ('fftshift', 'ifftshift') and isinstance(a0, Og):
             if 'axes' in kwargs or len(args) > 1:
                 return Unknown('shift with axes')
@@ -210,6 +212,11 @@ class OriginDomain(Domain):
         return None
 
     def truth(self, v):
+        return None
+
+    def iterate(self, v, node):
+        if isinstance(v, Real):
+            return [Real(), Real()]        # a shape pair
         return None
 
     def join(self, values):
